@@ -98,10 +98,12 @@ def run(tier, seed):
     starts_t = starts_q + [(C("p", V(0)), C("p", V(0))), (C("p", I(2)), C("retract", C("p", I(2)))), (C("retract", C("p", I(2))), C("p", V(0)))]
     if tier == "quick":
         chk.machine_family("api-interleavings-d3", api_scenarios(3, [[1, 2, 3]], starts_q), features=features)
-        chk.machine_family("bodies", body_scenarios(), features=features)
+        chk.machine_family("bodies", body_scenarios(), features=features, cfg="YP-live.cfg",
+                           props=("Termination (temporal, WF)", "NeverOutOfFuel", "CleanAfterEnd", "FactIdsUnique", "SnapshotsOK", "DbStepShape"))
     else:
         chk.machine_family("api-interleavings-d4", api_scenarios(4, [[1, 2, 3], [1], []], starts_t), features=features)
-        chk.machine_family("bodies", body_scenarios(), features=features)
+        chk.machine_family("bodies", body_scenarios(), features=features, cfg="YP-live.cfg",
+                           props=("Termination (temporal, WF)", "NeverOutOfFuel", "CleanAfterEnd", "FactIdsUnique", "SnapshotsOK", "DbStepShape"))
     chk.exhaustive = True
     need = ["DoRetractStart", "DoRetractNext", "DoRetractExhausted", "DoCallFacts", "DoRetractAll", "DoAssertz", "DoAsserta"]
     missing = [e for e in need if not chk.events.get(e)]
